@@ -14,6 +14,13 @@ def run(ctx):
             if seen.get(k, 0) < 2:
                 seen[k] = seen.get(k, 0) + 1
                 keep.append(v)
+        # ... and every certificate arrangement with an untouched description, on both sides
+        have = {(v["cert"], v["verifier"]) for v in keep if v["fp"] == "correct" and not v["verifyOff"]}
+        for v in vecs:
+            k = (v["cert"], v["verifier"])
+            if v["fp"] == "correct" and not v["verifyOff"] and v["place"] == "media" and k not in have:
+                have.add(k)
+                keep.append(v)
         vecs = keep
     ctx.log("%d vectors" % len(vecs))
     binary = vlib.go_build(ctx, "dtlsfp")
